@@ -260,6 +260,15 @@ static void __attribute__((noinline)) poison_stack(unsigned pat) {
     for (size_t i = 0; i < sizeof big; i++) big[i] = (uint8_t)(pat + (i >> 3));
     __asm__ volatile("" ::: "memory");
 }
+/* adversarial residue: every 64-bit word of the dead stack equals `word`
+ * (the element count of the case), so that an uninitialised "already done
+ * for this count?" field compares equal */
+static int g_poison_count;
+static void __attribute__((noinline)) poison_stack_words(uint64_t word) {
+    volatile uint64_t big[12 * 1024];
+    for (size_t i = 0; i < sizeof big / sizeof big[0]; i++) big[i] = word;
+    __asm__ volatile("" ::: "memory");
+}
 
 /* run the case in `text` (modified in place); returns a malloc'd output line */
 static char *run_case(char *text) {
@@ -278,6 +287,12 @@ static char *run_case(char *text) {
     int sig;
     const char *fault = NULL;
     if (g_poison) poison_stack(g_poison);
+    if (g_poison_count) {
+        uint64_t n = 0;
+        for (int i = 0; i < c.argc && !n; i++)
+            if (c.argv[i][0] == 'L' && c.argv[i][1]) { n = 1; for (const char *q = c.argv[i]; *q; q++) n += (*q == ','); }
+        poison_stack_words(n);
+    }
     g_in_case = 1;
     if ((sig = sigsetjmp(g_jmp, 1)) == 0) {
         if (g_watchdog) alarm(g_watchdog); /* a library call that never returns */
@@ -362,6 +377,7 @@ int main(int argc, char **argv) {
         else if (!strcmp(argv[ai], "--shuffle")) shuffle = atol(argv[++ai]);
         else if (!strcmp(argv[ai], "--pred")) pred = atol(argv[++ai]);
         else if (!strcmp(argv[ai], "--poison")) g_poison = (unsigned)strtoul(argv[++ai], NULL, 0);
+        else if (!strcmp(argv[ai], "--poison-count")) g_poison_count = 1;
         else if (!strcmp(argv[ai], "--oom")) oom = 1;
         else if (!strcmp(argv[ai], "--oom-cap")) oom_cap = atol(argv[++ai]);
         else die("unknown option", argv[ai]);
